@@ -534,3 +534,59 @@ func CanonOf(method, target string) (route, id string) {
 	}
 	return "", ""
 }
+
+// ScopeLookalikes is the scope vocabulary besides the two keywords themselves: ASCII near misses (padding, case,
+// prefixes and suffixes of the keyword and of its two halves, separators), other scopes, Unicode compatibility forms.
+var ScopeLookalikes = []string{"relay:admin ", " relay:admin", "Relay:Admin", "RELAY:ADMIN", "relay:Admin", "admin", "relay", "relay:", "relay:admi",
+	"relay:admins", "relay:admin:", "relay-admin", "relay.admin", "relay:admin,relay:stats", "relay:admin relay:stats",
+	"relay:stats", "read", "write", "host", "client", "", "*", "relay:*",
+	// Unicode compatibility look-alikes (equal to the keyword only after NFKC / case folding): full-width letters,
+	// full-width and small colon, modifier / superscript / mathematical letters, long s, Kelvin-style homoglyphs
+	"\uff52\uff45\uff4c\uff41\uff59\uff1a\uff41\uff44\uff4d\uff49\uff4e", "relay\uff1aadmin", "relay\ufe55admin", "\u02b3elay:admin",
+	"relay:admi\u207f", "relay:\U0001d41admin", "relay:\uff41dmin", "relay:adm\u2139n", "\uff52elay:admin",
+	"relay\uff1astats", "relay:\u017ftats", "relay:stat\u02e2", "\uff52\uff45\uff4c\uff41\uff59\uff1a\uff53\uff54\uff41\uff54\uff53", "relay:\uff53tats",
+	"relay:admin\u200b", "\ufeffrelay:admin", "relay:admin\u00a0", "re\u00adlay:admin",
+	// exact prefixes / halves of the keywords and separator corners
+	"r", "rel", ":", "::", ":admin", ":stats", "relay::admin", "relay:admin:relay:admin", "relay:a", "relay:s", "relay:adminrelay:stats", "admin:relay", "stats",
+	"relay\x00", "relay:\x00admin", "RELAY", "Relay:"}
+
+// ClaimShape says which of the private claims topic / prefix a token names (admin tokens minted by `relay token`
+// carry a prefix and no topic) and Window where the clock stands relative to its dates.
+type ClaimShape struct {
+	Label         string
+	Topic, Prefix *string
+}
+type Window struct {
+	Label         string
+	Iat, Nbf, Exp int64 // offsets from now
+	Valid         bool
+}
+
+func sptr(s string) *string { return &s }
+
+// ClaimShapes x Windows is the dimension "which claims are there" x "is the token in its window".
+func ClaimShapes() []ClaimShape {
+	return []ClaimShape{{"neither", nil, nil}, {"prefix-only", nil, sptr("session")}, {"topic-only", sptr("some-topic"), nil},
+		{"both", sptr("some-topic"), sptr("session")}, {"empty-strings", sptr(""), sptr("")}, {"prefix-shell", nil, sptr("shell")}}
+}
+func Windows() []Window {
+	return []Window{{"valid", -2, -1, 60, true}, {"valid-long", -2, -1, 90000, true}, {"expired", -100, -100, -1, false}, {"expired-long-ago", -90000, -90000, -80000, false},
+		{"expires-now", -2, -1, 0, false}, {"not-yet", -2, 5, 600, false}, {"issued-in-future", 5, -1, 600, false}, {"not-yet-far", -2, 80000, 90000, false}}
+}
+
+// Shaped returns base with the claim shape and window applied.
+func Shaped(base Bearer, cs ClaimShape, w Window, now int64) Bearer {
+	b := base
+	b.Claims = cloneClaims(base.Claims)
+	delete(b.Claims, "topic")
+	delete(b.Claims, "prefix")
+	if cs.Topic != nil {
+		b.Claims["topic"] = *cs.Topic
+	}
+	if cs.Prefix != nil {
+		b.Claims["prefix"] = *cs.Prefix
+	}
+	b.Claims["iat"], b.Claims["nbf"], b.Claims["exp"] = now+w.Iat, now+w.Nbf, now+w.Exp
+	b.Label = "shape:" + cs.Label + "+window:" + w.Label
+	return b
+}
